@@ -8,6 +8,10 @@ TInit == Init /\ mv = T!MVInit
 TNext == \E U \in SUBSET Keys : Update(U) /\ mv' = T!MVUpd("welford", QOne, mv, [k \in U |-> QOne])
 TSpec == TInit /\ [][TNext]_<<n, tracked, fed, first, mv>>
 Bound == n <= 5
+\* the step the TLAPS proof (MVIndProof.tla: any key set, any number of updates) is about is this module's step
+P == INSTANCE MVIndProof
+ProofIsAboutThisStep == [][P!Next <=> Next]_<<n, tracked, fed, first>>
+ProofInvariant == P!IndInv
 SkeletonIsMVUpd == /\ DOMAIN mv.trk = tracked /\ mv.n = n
                    /\ \A k \in tracked : mv.trk[k].n = fed[k]
 =============================================================================
